@@ -16,7 +16,7 @@ NO_THROW_IN_PRACTICE = [
     r"std::(unordered_)?map<.*>::(find|end|cend|begin|cbegin)$",   # comparing / hashing enum and string_view keys does not throw
     # <algorithm>/<numeric>/<iterator>/<utility> templates: they throw only what the element operations or the callable
     # throw, and the callable is library code (a lambda body is a function of the library, examined like any other)
-    r"std::(transform|equal|all_of|any_of|none_of|accumulate|inner_product|copy|copy_n|fill|fill_n|for_each|begin|end|cbegin|cend|size|data|get|tie|make_tuple|forward_as_tuple|exchange|swap|make_optional|make_pair|as_const|addressof)$",
+    r"std::(find_if|find_if_not|distance|transform|equal|all_of|any_of|none_of|accumulate|inner_product|copy|copy_n|fill|fill_n|for_each|begin|end|cbegin|cend|size|data|get|tie|make_tuple|forward_as_tuple|exchange|swap|make_optional|make_pair|as_const|addressof)$",
     r"std::(tuple|pair|reference_wrapper)<.*>",
     r"std::operator(==|!=|<|>|<=|>=)$",   # of tuples of references / arithmetic values (std::tie comparisons)
     r"std::(less|greater|less_equal|greater_equal|equal_to|not_equal_to)<.*>::operator\(\)$",   # the built-in comparison of the arguments
@@ -511,6 +511,27 @@ def run(chk):
                         if ra and rb and k == "bin":
                             combos = [x + y if n["op"] == "+" else x - y if n["op"] == "-" else x * y for x in ra for y in rb]
                             fits = -(1 << (max(bits, 32) - 1)) <= min(combos) and max(combos) < (1 << (max(bits, 32) - 1))
+                        if not fits and not is_control:
+                            # not confined by its form: decided by evaluation - every value this operation takes on every path
+                            # the evaluator follows must be a concrete integer (or a choice among concrete integers) in range
+                            if "_int_ops" not in f:
+                                E_ = ev.Evaluator(F)
+                                E_.record_int_ops = {}
+                                try:
+                                    E_.run_symbolic(f)
+                                except ev.Inconclusive:
+                                    pass
+                                f["_int_ops"] = E_.record_int_ops
+                            seen_vals = f["_int_ops"].get(id(n))
+
+                            def leaves_(x):
+                                if isinstance(x, tuple) and len(x) == 4 and x[0] == "g":
+                                    return leaves_(x[2]) + leaves_(x[3])
+                                return [x]
+                            if seen_vals and all(ev._int_choice(v) for v in seen_vals):
+                                allv = [y for v in seen_vals for y in leaves_(v)]
+                                fits = all(-(1 << (max(bits, 32) - 1)) <= y < (1 << (max(bits, 32) - 1)) for y in allv)
+                                ra, rb = ("evaluated", (min(allv), max(allv))), ""
                         if is_control:
                             controls["signed"] += 1
                         elif fits:
